@@ -503,7 +503,8 @@ class _Compress(StandardNode):
             self.inputs.input.unwrap_tensor(),
             self.inputs.condition.unwrap_tensor(),
         )
-        if not inp.shape:
+        if inp.shape is None and self.attrs.axis is not None:
+            # (without an axis the input is flattened: the result is a vector whatever the rank)
             return {"output": Tensor(inp.dtype, None)}
         if cond.dtype != np.dtype(bool):
             raise InferenceError("Compress input 'condition' must be a boolean dtype.")
